@@ -857,3 +857,11 @@ func mustPass(b *ssa.BasicBlock, idx int, target func(ssa.Instruction) bool, voi
 	})
 	return !found, tr
 }
+
+// constantInt64 returns the int64 value of an integer constant.
+func constantInt64(k constant.Value) (int64, bool) {
+	if k == nil || k.Kind() != constant.Int {
+		return 0, false
+	}
+	return constant.Int64Val(k)
+}
